@@ -215,8 +215,10 @@ def fast_fp(v, _depth=0):
     if isinstance(v, np.ndarray):
         if v.dtype.kind == "O":
             return digest(canon(v))
-        return ("a", v.dtype.str, v.shape, hash(v.tobytes()))
-    if v is None or isinstance(v, (bool, int, float, str)):
+        return ("a", v.dtype.str, v.shape, hash(v.tobytes()))  # raw bytes: a NaN equals itself
+    if isinstance(v, float):
+        return "nan" if v != v else float(v)  # NaN must compare equal to itself here
+    if v is None or isinstance(v, (bool, int, str)):
         return v
     if hasattr(v, "_array") and hasattr(type(v), "with_new_array") and _depth < 3:
         m = getattr(v, "mask", None)
